@@ -65,6 +65,34 @@ def builder(fam):
     return {"bv": bvb.build, "fp": fpbuild.build, "str": strbuild.build}[fam]
 
 
+class _PlainUserAnnotation:
+    pass
+
+
+def _mk_plain_user_annotation():
+    import claripy
+
+    global _PlainUserAnnotation
+
+    class _PlainUserAnnotation(claripy.Annotation):  # noqa: F811
+        """identity equality and hashing, like most annotations written outside claripy"""
+
+        def __init__(self, n):
+            self.n = n
+
+        @property
+        def eliminatable(self):
+            return False
+
+        @property
+        def relocatable(self):
+            return False
+
+    _PlainUserAnnotation.__module__ = __name__
+    _PlainUserAnnotation.__qualname__ = "_PlainUserAnnotation"
+    return _PlainUserAnnotation
+
+
 def annotate_det(ast, i):
     """deterministic annotation placement (must be reproducible in the child process)"""
     import claripy
@@ -88,6 +116,8 @@ def annotate_det(ast, i):
 def run_shard(spec, res):
     import gc
 
+    _mk_plain_user_annotation()
+
     import claripy
 
     rng = random.Random(f"{spec['seed']}:{PID}:{spec['kind']}:{spec.get('cls')}:{spec.get('stream')}")
@@ -110,6 +140,27 @@ def run_shard(spec, res):
                 continue
             res.count("expr_roundtrips")
             res.case(["expr", fam, d, i % 7], not e.is_leaf())
+            if i % 5 == 2:
+                # the way users usually write an annotation: no __eq__/__hash__ of its own, so every instance (and every
+                # unpickled copy) is a different annotation - the live expression must still be found again
+                ea = e.annotate(_PlainUserAnnotation(i))
+                if not ea.is_leaf() and len(ea.args) and isinstance(ea.args[0], claripy.ast.Base) and i % 2:
+                    try:
+                        ea = type(ea).__add__(ea, 1) if isinstance(ea, claripy.ast.BV) else ea
+                    except Exception:  # noqa: BLE001
+                        pass
+                try:
+                    eb = pickle.loads(pickle.dumps(ea, -1))
+                except Exception as ex:  # noqa: BLE001
+                    res.violation({"kind": "pickle", "what": "expr-pickle-raised", "family": fam, "case": d, "observed": repr(ex)[:300], "annotation": "identity-hashed user annotation"})
+                    continue
+                res.count("expr_roundtrips_with_identity_hashed_annotation")
+                if ea._hash >= 2**63:
+                    res.count("expr_roundtrips_with_identity_hashed_annotation_and_top_bit_hash")
+                keep.append(ea)
+                if eb is not ea:
+                    res.violation({"kind": "pickle", "what": "unpickled-expression-is-not-the-same-object", "family": fam, "case": d, "annotation": "identity-hashed user annotation", "observed": [repr(ea)[:150], repr(eb)[:150], ea._hash, eb._hash]})
+                    continue
             if e2 is not e:
                 res.violation({"kind": "pickle", "what": "unpickled-expression-is-not-the-same-object", "family": fam, "case": d, "observed": [repr(e)[:150], repr(e2)[:150], e._hash, e2._hash]})
                 continue
@@ -201,6 +252,45 @@ def solver_shard(spec, res, rng):
                     res.count("approximate_probe_pairs")
                     if a1 != a2:
                         run.viol({"op": "probe"}, "unpickled-solver-approximate-answers-differ-from-original", original=a1, unpickled=a2)
+            if not run.failed and it % 3 == 2:
+                # stored before it was ever asked anything: six or more constraints, two of them contradicting each other
+                # directly over one variable - the copy that comes back must find that out like the original
+                pc = cls(track=True) if track else cls()
+                # (the contradictory pair gets a variable of its own when there is more than one)
+                vs_ = [al.v(0)] + [al.v(1 + j % max(1, al.nvars - 1)) if al.nvars > 1 else al.v(0) for j in range(2)]
+                k1 = al.k()
+                k2 = ["bvv", (k1[1] + 1 + rng.randrange((1 << al.w) - 1)) % (1 << al.w), al.w]
+                benign = [[rng.choice(["ule", "uge"]), v_, ["bvv", rng.choice([0, (1 << al.w) - 1]), al.w]] if rng.random() < 0.5 else ["ne", ["add", v_, ["bvv", j_, al.w]], ["bvv", 0, al.w]] for j_, v_ in enumerate((vs_[1:] if al.nvars > 1 else vs_) * 3)]
+                seq = benign[: rng.choice([4, 5, 6])] + [["eq", vs_[0], k1], ["eq", vs_[0], k2]]
+                if k1[1] != k2[1]:
+                    other_ = run.b(al.v(1 % al.nvars))
+
+                    def first_answer(sv, which):
+                        try:
+                            if which == 0:
+                                return sv.satisfiable()
+                            if which == 1:
+                                return len(sv.eval(other_, 1))
+                            if which == 2:
+                                return sv.solution(other_, 1)
+                            return sv.satisfiable(extra_constraints=[other_ != 0])
+                        except claripy.errors.UnsatError:
+                            return "unsat"
+                        except claripy.errors.ClaripyError as ex_:  # (a frontend that cannot answer: the copy cannot either)
+                            return "raised:" + type(ex_).__name__
+
+                    # every question is the first thing a fresh original and a fresh unpickled copy are asked
+                    for which in range(4):
+                        pc = cls(track=True) if track else cls()
+                        for c_ in seq:
+                            pc.add([run.b(c_)])
+                        qc = pickle.loads(pickle.dumps(pc, -1))
+                        a1, a2 = first_answer(pc, which), first_answer(qc, which)
+                        res.count("pickled_before_first_query")
+                        if a1 != a2:
+                            run.viol({"op": "first-question", "which": which}, "unpickled-solver-answers-differ-from-original", original=a1, unpickled=a2, constraints=seq, scenario="pickled before the first query")
+                            break
+                        keep += [pc, qc]
             if not run.failed and it % 3 == 1:
                 # a solver and a copy of it stored in one pickle (what a program state with several paths does): the
                 # two that come back are as independent of each other as the two that went in
